@@ -111,6 +111,23 @@ def run(tier, seed, replay=None):
         if not av or len(av) == 1 and kind in ("keys", "cli", "cli_malformed"):
             continue
         cases.append({"text": r.choice(TEXTS), "argv": av, "kind": kind})
+    # searches family: patterns that can match the empty string (at the start, at the end of the buffer, between any
+    # two characters), anchors, classes and alternations, forwards and backwards, repeated with n/N and counts, as a
+    # motion of an operator and inside -g; an RNG of its own, so that the main stream is what it was before
+    import random as _random
+    sr = _random.Random((seed << 8) ^ 0x5EA2C4)
+    PATS = ["$", "^", "x*", "a?", "\\b", "\\s*", "()", "a|", ".", ".*", "[a-z]*", "\\w+$", "^$", "é*", "日", "o", "\\n", "a.", "[0-9]+", "zzz", "(", "[", "\\"]
+    for _ in range(300 if tier == "quick" else 8000):
+        keys = ""
+        for _ in range(sr.randint(1, 3)):
+            keys += sr.choice(["", "", "$", "G", "gg", "w", "2"]) + sr.choice(["", "", "d", "y", "c", "v"]) + sr.choice("/?") + sr.choice(PATS) + sr.choice(["<CR>", "<CR>", "<enter>"])
+            keys += "".join(sr.choice(["n", "N", "2n", "3N", "x", "dn", ".", "<esc>"]) for _ in range(sr.randint(0, 3)))
+        av = [sr.choice(["-m", "-c"]), keys]
+        if sr.random() < 0.2:
+            av = ["-g", sr.choice(PATS), "-m", keys, "--end"]
+        if sr.random() < 0.3:
+            av = av + ["-c", sr.choice(["n", "N", "/" + sr.choice(PATS) + "<CR>"])]
+        cases.append({"text": sr.choice(TEXTS), "argv": av, "kind": "search_family"})
     if replay:
         rp = json.load(open(replay))
         c = rp.get("case") or {}
